@@ -1178,8 +1178,22 @@ def _sort_by_key(m, a, c):
 @reg("std::slice::<impl [T]>::sort", "core::slice::<impl [T]>::sort_unstable")
 def _sort(m, a, c):
     v = deref(a[0])
+    if any(isinstance(x, Adt) and x.path in m.facts.adts for x in v.items) and not any(is_sym(x) for x in v.items):
+        # user-ordered items: sort with the type's own Ord impl (stable merge order = slice::sort)
+        import functools
+
+        def cmpf(x, y):
+            r = _cmp_vals(x, y, m)
+            if isinstance(r, Term):
+                raise Unsupported("symbolic ordering")
+            return {"Less": -1, "Equal": 0, "Greater": 1}[r.variant]
+        try:
+            v.items.sort(key=functools.cmp_to_key(cmpf))
+            return ()
+        except Unsupported:
+            pass
     if any(isinstance(x, Adt) and x.path in m.facts.adts for x in v.items) or any(is_sym(x) for x in v.items):
-        # order of opaque / user-ordered items is not modelled: keep a marker
+        # order of opaque items is not modelled: keep a marker
         v.items[:] = [Term("sorted", PyVec(list(v.items)), i) for i in range(len(v.items))]
         return ()
     v.items.sort(key=_sort_key)
